@@ -105,6 +105,48 @@ def check_anchors(ctx, meta):
     return sorted(a for a in anchors if a in lock and lock[a] != now[a])
 
 
+def _anchor_cov_start():
+    """opt-in (VERIF_ANCHORCOV=1, tools/anchor_coverage.py): measure which statements of the anchored doit functions the
+    correspondence run really executes in this process (threads included; child processes are not measured).  The result
+    goes into the evidence (`anchor_line_coverage`); it never decides anything."""
+    if os.environ.get('VERIF_ANCHORCOV') != '1':
+        return None
+    try:
+        import coverage
+        cov = coverage.Coverage(data_file=None, config_file=False, concurrency=['thread'],
+                                include=[os.path.join(common.REPO, 'doit', '*')])
+        cov.start()
+        return cov
+    except Exception:  # noqa
+        return None
+
+
+def _anchor_cov_report(cov, anchors):
+    import ast
+    cov.stop()
+    out = {}
+    trees = {}
+    for a in anchors:
+        path, _, qual = a.partition('::')
+        full = os.path.join(common.REPO, path)
+        try:
+            if path not in trees:
+                with open(full) as f:
+                    trees[path] = (ast.parse(f.read()), cov.analysis2(full))
+            node, (_, stmts, _excl, missing, _) = trees[path]
+            for part in [p for p in qual.split('.') if p]:
+                node = next(ch for ch in ast.iter_child_nodes(node)
+                            if isinstance(ch, (ast.FunctionDef, ast.ClassDef, ast.AsyncFunctionDef)) and ch.name == part)
+            lo, hi = node.lineno, node.end_lineno
+            seen = common.ANCHORCOV_LINES.get(full, set()) | common.ANCHORCOV_LINES.get(os.path.realpath(full), set())
+            st = [l for l in stmts if lo < l <= hi]          # the `def` line itself runs at import time
+            mi = [l for l in missing if lo < l <= hi and l not in seen]
+            out[a] = {'statements': len(st), 'executed': len(st) - len(mi), 'missing_lines': mi}
+        except Exception as ex:  # noqa
+            out[a] = {'error': type(ex).__name__}
+    return out
+
+
 def _normal_signals():
     """A check started as a background job of a non-interactive shell inherits SIGINT/SIGQUIT = SIG_IGN, and an ignored
     signal stays ignored across exec: a cmd-action `kill -INT $$` would then do nothing and the C17/C05/C19 cases about
@@ -162,7 +204,12 @@ def main(argv):
             ctx.note('anchored sources changed since anchors.lock.json: %s -- correspondence budget x3' % changed)
         if lean['broken']:
             ctx.boost = max(ctx.boost, 3)
-        mod.run(ctx)
+        cov = _anchor_cov_start()
+        try:
+            mod.run(ctx)
+        finally:
+            if cov is not None:
+                ctx.extra['anchor_line_coverage'] = _anchor_cov_report(cov, meta.get('anchors', []))
         if (ctx.divergences or lean['broken']) and not ctx.violations:
             # (K) or (T) broke: look harder for a concrete failing input before saying there is none
             ctx.boost = max(ctx.boost, 3) * 2
